@@ -68,6 +68,12 @@ def configs(run):
     inputs.write_segy(sgy, cube, np.arange(7) + 10, np.arange(5) * 2 + 20, np.arange(40) * 4.0)
     out.append(('segy heuristic planesets=2', segy_route(sgy, 16, (4, 4, -1)), 16))
     out.append(('segy thorough planesets=2', segy_route(sgy, 16, (4, 4, -1), header_detection='thorough'), 16))
+    # three plane sets at capacity 1: the producer can be two plane sets ahead of a compressor that holds one (a buffer handed over
+    # without a copy must not be refilled)
+    cube3 = inputs.cube((11, 5, 40), run.seed + 5)
+    sgy3 = os.path.join(d, 'r3.sgy')
+    inputs.write_segy(sgy3, cube3, np.arange(11) + 10, np.arange(5) * 2 + 20, np.arange(40) * 4.0)
+    out.append(('segy heuristic planesets=3', segy_route(sgy3, 16, (4, 4, -1)), 16))
     if not quick:
         out.append(('segy reduce_iops planesets=2', segy_route(sgy, 16, (4, 4, -1), reduce_iops=True), 16))
         out.append(('segy strip planesets=2', segy_route(sgy, 16, (4, 4, -1), header_detection='strip'), 16))
